@@ -797,7 +797,7 @@ func rebaseAddStep(dc *dagConfig, rBaseOld, rBaseNew ref.Ref) error {
 		for i := range confOCIOld.History {
 			if confOCI.History[i].Author != confOCIOld.History[i].Author ||
 				confOCI.History[i].Comment != confOCIOld.History[i].Comment ||
-				!confOCI.History[i].Created.Equal(*confOCIOld.History[i].Created) ||
+				!timePtrEqual(confOCI.History[i].Created, confOCIOld.History[i].Created) ||
 				confOCI.History[i].CreatedBy != confOCIOld.History[i].CreatedBy ||
 				confOCI.History[i].EmptyLayer != confOCIOld.History[i].EmptyLayer {
 				return fmt.Errorf("old base image does not match image history, entry %d, base %v, image %v%.0w", i, confOCIOld.History[i], confOCI.History[i], errs.ErrMismatch)
